@@ -418,7 +418,16 @@ def run(ctx) -> None:
     init = an.ctx_method("__init__")
     aenter = an.ctx_method("__aenter__")
     inherit = [n for n in walk_own(init.node) if isinstance(n, ast.Assign) and any(self_attr(t) == ta.tg_attr for t in n.targets)]
-    ok = bool(inherit) and all(isinstance(n.value, ast.Attribute) and n.value.attr == ta.tg_attr for n in inherit)
+    def _is_parent_tg(v, depth: int = 0) -> bool:
+        # `<parent>._task_group`, directly or through a local that holds nothing else
+        if isinstance(v, ast.Attribute) and v.attr == ta.tg_attr:
+            return True
+        if isinstance(v, ast.Name) and depth < 3:
+            srcs = [x.value for x in walk_own(init.node) if isinstance(x, ast.Assign) and any(isinstance(t, ast.Name) and t.id == v.id for t in x.targets)]
+            return bool(srcs) and all(_is_parent_tg(s_, depth + 1) for s_ in srcs)
+        return False
+
+    ok = bool(inherit) and all(_is_parent_tg(n.value) for n in inherit)
     rep.check("C08.R5", ok, init, inherit[0] if inherit else init.node, "a child context shares its parent's (= the root's) task group", "child contexts do not inherit the root task group")
     ecfg = a.cfg(aenter)
     creates = [n for n in ecfg.live_nodes() if n.kind == "stmt" and isinstance(n.ast, ast.Assign) and any(self_attr(t) == ta.tg_attr for t in n.ast.targets)]
